@@ -62,6 +62,7 @@ type ethPeer struct {
 	asked     map[types.Hash]bool
 	// the number of block requests received when the last terminating (empty) hash pack was sent; -1 = none sent
 	blockReqsAtTerminator int
+	left                  bool // the peer went away by itself (s_p2p_leave.go)
 
 	// onHashReq / onBlockReq: nil = answer like a node. Return answer=false to stay silent.
 	onHashReq  func(nth int, number, amount uint64) (reply []types.Hash, answer bool)
@@ -996,6 +997,7 @@ func p2pNetSyncAt(n *netCtx, src []*nom.DetailedMomentum, K int) {
 	for i, k := range []string{"signature", "changes-hash", "producer", "timestamp", "data"} {
 		scns = append(scns, twoPeerBatchScenario(k, i%2 == 0), twoPeerBatchScenario(k, i%2 == 1))
 	}
+	scns = append(scns, leaverScenarios(n.seed, n.tier, K)...)
 	if n.scn != "" {
 		var keep []syncScenario
 		for _, sc := range scns {
@@ -1006,7 +1008,7 @@ func p2pNetSyncAt(n *netCtx, src []*nom.DetailedMomentum, K int) {
 		scns = keep
 	}
 	var wg sync.WaitGroup
-	sem := make(chan struct{}, 48)
+	sem := make(chan struct{}, 80)
 	for i, sc := range scns {
 		wg.Add(1)
 		sem <- struct{}{}
